@@ -351,12 +351,12 @@ def main(tier, replay=None):
         "histories", "steps", "compared", "skipped_dup", "kinds", "with_lint_diag", "with_unmapped",
         "with_missing_then_added", "steps_with_cycles", "model_steps", "model_partial_resets")}
     res.coverage["rule"] = (
-        "corpus of minimised histories first (F2, F3, package-body rule, missing unit appears, use library.all); "
+        "corpus of minimised histories first (F2, F3, package-body rule, missing unit appears, use library.all, transitive chains, re-admitted duplicates); "
         "generated projects: 2-3 libraries, 3-6 files, units from a small name pool over 14 dependency shapes (use "
         "item / use all / selected name / use library.all / deferred constant + body in another file / entity + "
         "architecture in another file / entity, component and configuration instantiation / configuration / context "
         "declaration + reference / generic package + instance / same name different kind / mutual dependencies / "
-        "unused declarations and sensitivity-list lints / empty / broken text); histories of 1-8 (thorough 1-12) steps: "
+        "unused declarations and sensitivity-list lints / empty / broken text); a quarter of the histories are chain scenarios D <- U <- W <- X where D is what U is missing (use library.all / missing lib.pkg / package body / architecture or entity named in an instantiation, configuration in the chain) and the file of D is filled, emptied, restored, or a 3-unit file copied to a second file (all parked as duplicates) and the original emptied; histories of 1-8 (thorough 1-12) steps: "
         "replace, empty, restore, unmapped file via Source::inline, swap as two steps; after every step diagnostics "
         "(code, file, range, message, related as multiset) and find_all_entity_references of every file vs a freshly "
         "loaded Project; steps whose fresh world has a unit name in two files of one library are skipped, not removed; "
